@@ -7,19 +7,19 @@ package metrics
 //@ pred mcOK(mc *MetricsCollector) := mc != nil && mc.metrics != nil && mc.metrics.BackendMetrics != nil
 
 //@ func (*MetricsCollector).RecordRequest
-//@   props C13
+//@   props C13 C12
 //@   requires mcOK(mc)
 //@   ensures mc.metrics.TotalRequests == (old(mc.metrics.TotalRequests) + 1) % 18446744073709551616
 //@   modifies mc.metrics.TotalRequests
 
 //@ func (*MetricsCollector).RecordRateLimitedRequest
-//@   props C13
+//@   props C13 C12
 //@   requires mcOK(mc)
 //@   ensures mc.metrics.RateLimitedRequests == (old(mc.metrics.RateLimitedRequests) + 1) % 18446744073709551616
 //@   modifies mc.metrics.RateLimitedRequests
 
 //@ func (*MetricsCollector).RecordResponse
-//@   props C13
+//@   props C13 C12
 //@   requires mcOK(mc)
 //@   ensures ok: success ==> mc.metrics.SuccessfulRequests == (old(mc.metrics.SuccessfulRequests) + 1) % 18446744073709551616
 //@             && mc.metrics.FailedRequests == old(mc.metrics.FailedRequests)
@@ -29,11 +29,11 @@ package metrics
 
 // EMA of response times: floating point, not needed by any property; only its frame matters.
 //@ func (*MetricsCollector).updateAverageResponseTime
-//@   props C13
+//@   props C13 C12
 //@   requires mcOK(mc)
 //@   modifies mc.metrics.avgResponseTimeBits
 //@ loop (*MetricsCollector).updateAverageResponseTime #0
-//@   props C13
+//@   props C13 C12
 //@   invariant same: mc.metrics == old(mc.metrics)
 //@   modifies mc.metrics.avgResponseTimeBits
 
@@ -44,7 +44,7 @@ package metrics
 //@        has(mc.metrics.BackendMetrics, k1) && has(mc.metrics.BackendMetrics, k2) && k1 != k2 ==> mc.metrics.BackendMetrics[k1] != mc.metrics.BackendMetrics[k2])
 
 //@ func (*MetricsCollector).RecordBackendRequest
-//@   props C13
+//@   props C13 C12
 //@   requires mcOK(mc) && unlocked(mc.metrics.mutex) && bmCellsOK(mc)
 //@   ensures cells: bmCellsOK(mc)
 //@   ensures counted: old(len(mc.metrics.BackendMetrics)) < MaxBackendMetrics ==> has(mc.metrics.BackendMetrics, backendName)
@@ -56,7 +56,7 @@ package metrics
 //@   modifies mapof(mc.metrics.BackendMetrics), BackendMetrics.TotalRequests, BackendMetrics.SuccessfulRequests, BackendMetrics.FailedRequests, BackendMetrics.AverageResponseTime
 
 //@ func (*MetricsCollector).UpdateBackendHealth
-//@   props C04
+//@   props C04 C12
 //@   requires mcOK(mc) && unlocked(mc.metrics.mutex) && bmCellsOK(mc)
 //@   ensures cells: bmCellsOK(mc)
 //@   ensures mirror: has(mc.metrics.BackendMetrics, backendName) && mc.metrics.BackendMetrics[backendName].IsHealthy == isHealthy
@@ -66,9 +66,27 @@ package metrics
 //@   modifies mapof(mc.metrics.BackendMetrics), BackendMetrics.IsHealthy, BackendMetrics.LastHealthCheck
 
 //@ func (*MetricsCollector).UpdateBackendConnections
-//@   props C13
+//@   props C13 C12
 //@   requires mcOK(mc) && unlocked(mc.metrics.mutex) && bmCellsOK(mc)
 //@   ensures cells: bmCellsOK(mc)
 //@   ensures gauge: has(mc.metrics.BackendMetrics, backendName) && mc.metrics.BackendMetrics[backendName].ActiveConnections == connections
 //@   modifies mapof(mc.metrics.BackendMetrics), BackendMetrics.ActiveConnections
 //@ pred has_bm(mc *MetricsCollector, name string) := has(mc.metrics.BackendMetrics, name)
+
+// ---- access policies (C12)
+//@ field Metrics.TotalRequests atomic
+//@ field Metrics.SuccessfulRequests atomic
+//@ field Metrics.FailedRequests atomic
+//@ field Metrics.RateLimitedRequests atomic
+//@ field Metrics.avgResponseTimeBits atomic
+//@ field Metrics.BackendMetrics guarded_by Metrics.mutex
+//@ field Metrics.CircuitBreakerMetrics guarded_by Metrics.mutex
+//@ field Metrics.Uptime guarded_by Metrics.mutex
+//@ field BackendMetrics.TotalRequests guarded_by Metrics.mutex
+//@ field BackendMetrics.SuccessfulRequests guarded_by Metrics.mutex
+//@ field BackendMetrics.FailedRequests guarded_by Metrics.mutex
+//@ field BackendMetrics.ActiveConnections guarded_by Metrics.mutex
+//@ field BackendMetrics.IsHealthy guarded_by Metrics.mutex
+//@ field BackendMetrics.LastHealthCheck guarded_by Metrics.mutex
+//@ field BackendMetrics.AverageResponseTime guarded_by Metrics.mutex
+
